@@ -277,3 +277,40 @@ def c14e(ctx):
     ctx.check(ok, 'WMSSource._is_compatible:any-opacity-refuses', 'combination is refused when self.opacity or other.opacity is set (tested against None on both sides)', fn,
               fail='sources with an opacity can be combined (e.g. when both opacities are equal): the opacity is applied once to the '
                    'combined image instead of to each layer')
+
+
+@rule('C14.f', floor=3)
+def c14f(ctx):
+    """shortcuts trust the label: an image that can contain transparent regions is labelled transparent, and a cached tile that is
+    handed on unmerged carries the cache's image options (opacity, format, transparency) -- otherwise the single-layer shortcut
+    and the opacity handling of the merger return something else than the full composition"""
+    fn = ctx.fn('mapproxy/image/__init__.py:SubImageSource')
+    defs = Defs(fn.node)
+    cr = [x for x in fn.walk() if is_call(x, 'create_image')]
+    rets = [r.value for r in returns_of(fn.node) if is_call(r.value, 'ImageSource')]
+    ok = len(cr) == 1 and bool(rets) and len(cr[0].args) > 1 and isinstance(cr[0].args[1], ast.Name)
+    if ok:
+        oname = cr[0].args[1].id
+        ok = all(unparse(keyword(r, 'image_opts', 2) or ast.Constant(value=None)) == oname for r in rets)
+        tr = [s for s in fn.walk() if isinstance(s, ast.Assign) and unparse(s.targets[0]) == oname + '.transparent' and const_value(s.value) is True]
+        cp = [v for v, sel in defs.of(oname) if is_call(v, 'copy') and unparse(v.func.value) == fn.params[3]]
+        ok = ok and bool(tr) and bool(cp)
+    ctx.check(ok, 'SubImageSource:labelled-as-created', 'the partially filled canvas is created with a transparent copy of the options and returned '
+              'with exactly those options', fn,
+              fail='the sub image (transparent outside the pasted part) is returned with options that do not say transparent: the single-layer '
+                   'shortcut hands it out without background')
+    im = ctx.fn('mapproxy/layer.py:CacheMapLayer._image')
+    g = im.cfg
+    rets = g.find_stmts(lambda s: isinstance(s, ast.Return) and g.guarded(g.node_of[id(s)], lambda at: at.op is None and unparse(at.expr) == 'query.tiled_only', True))
+    ok = bool(rets)
+    for r in rets:
+        v = g.stmt[r].value
+        sets = g.find_stmts(lambda s: isinstance(s, ast.Assign) and isinstance(v, ast.Name) and unparse(s.targets[0]) == v.id + '.image_opts' and
+                            unparse(s.value) == 'self.tile_manager.image_opts')
+        ok = ok and isinstance(v, ast.Name) and bool(sets) and all(g.dominates(s, r) for s in sets)
+    ctx.check(ok, 'CacheMapLayer._image:tile-carries-cache-options', 'a cached tile returned unmerged (tiled_only) gets the image options of its cache', im,
+              fail='a tile handed on unmerged does not carry the image options of its cache: backends that load tiles without options lose the '
+                   'configured opacity/format, and the merger pastes the tile fully opaque')
+    ms = ctx.fn('mapproxy/image/merge.py:LayerMerger.merge')
+    ok = any(isinstance(x, ast.Attribute) and x.attr == 'opacity' and 'image_opts' in unparse(x) for x in ms.walk())
+    ctx.check(ok, 'LayerMerger.merge:opacity-from-image-opts', 'the merger reads the opacity from the layer image\'s options', ms)
